@@ -100,6 +100,7 @@ type cpyNode struct {
 }
 
 type cpyOp struct {
+	later  int    // cg/co: the object returned by Copy is written only after this many further operations (0: at once)
 	retry  bool   // inserted by the harness: repeat of a failed CopyReference
 	kind   string // cr cg co rn rt
 	ref    pdf.Reference
@@ -125,6 +126,7 @@ type cpyCase struct {
 	longChain       int           // length of a chain of references around the MaxExtractDepth limit (0: none)
 	longHead        pdf.Reference // its first reference
 	fixedProg       bool          // corpus case: prog is given, not generated
+	tgtOpen         bool          // a stream is open on the target Writer during the whole program
 }
 
 // cpySrc is the Getter handed to the Copier: the real Reader plus the overrides.
@@ -389,6 +391,10 @@ func genCpyCase(seed uint64, thorough bool) *cpyCase {
 	cs.srcSeekable = r.P(2, 3)
 	cs.tgtSeekable = r.P(4, 5)
 	cs.tgtHuman = r.P(1, 6)
+	if r.P(1, 4) {
+		cs.tgtOpen = true
+		cs.features["target-stream-open"] = true
+	}
 	if r.P(1, 30) {
 		cs.longChain = 253 + r.Intn(6)
 		cs.features["long-chain"] = true
@@ -851,7 +857,11 @@ func (cs *cpyCase) describe() string {
 	sort.Strings(fs)
 	var ops []string
 	for _, op := range cs.prog {
-		ops = append(ops, opToken(op))
+		t := opToken(op)
+		if op.later > 0 {
+			t += fmt.Sprintf("(put+%d)", op.later)
+		}
+		ops = append(ops, t)
 	}
 	return fmt.Sprintf("seed=%d src=%s/%q tgt=%s/%q nodes=%d features=%v prog=%s", cs.seed, cs.srcVer, cs.srcPw, cs.tgtVer, cs.tgtPw, len(cs.nodes), fs, strings.Join(ops, " "))
 }
